@@ -8,6 +8,7 @@ from abc import ABC
 from abc import abstractmethod
 from typing import TYPE_CHECKING
 from typing import Any
+from typing import AsyncIterable
 from typing import Callable
 from typing import Generic
 from typing import Iterable
@@ -27,6 +28,7 @@ from .selectors import ListSelector
 from .serialize import canonical_string
 
 if TYPE_CHECKING:
+    from .match import JSONPathMatch
     from .path import JSONPath
     from .selectors import FilterContext
 
@@ -544,7 +546,36 @@ class SelfPath(Path):
                 return context.current
             return NodeList()
 
-        return NodeList(self.path.finditer(context.current))
+        return NodeList(self._resolve(context))
+
+    def _root_match(self, context: FilterContext) -> JSONPathMatch:
+        # The nested query starts at the current node, but keeps the root
+        # node and filter context of the query it is embedded in.
+        return self.path.env.match_class(
+            filter_context=context.extra_context,
+            obj=context.current,
+            parent=None,
+            path=self.path.env.root_token,
+            parts=(),
+            root=context.root,
+        )
+
+    def _resolve(self, context: FilterContext) -> Iterable[JSONPathMatch]:
+        matches: Iterable[JSONPathMatch] = [self._root_match(context)]
+        for selector in self.path.selectors:
+            matches = selector.resolve(matches)
+        return matches
+
+    async def _resolve_async(
+        self, context: FilterContext
+    ) -> AsyncIterable[JSONPathMatch]:
+        async def root_iter() -> AsyncIterable[JSONPathMatch]:
+            yield self._root_match(context)
+
+        matches: AsyncIterable[JSONPathMatch] = root_iter()
+        for selector in self.path.selectors:
+            matches = selector.resolve_async(matches)
+        return matches
 
     async def evaluate_async(self, context: FilterContext) -> object:
         if isinstance(context.current, str):  # TODO: refactor
@@ -557,7 +588,7 @@ class SelfPath(Path):
             return NodeList()
 
         return NodeList(
-            [match async for match in await self.path.finditer_async(context.current)]
+            [match async for match in await self._resolve_async(context)]
         )
 
 
